@@ -2,6 +2,7 @@ CONSTANTS
   Exported = {"m", "h", "t"}
   Others = {"p", "x"}
   MaxLen = 4
+  MaxLen2 = 2
 INIT Init
 NEXT Next
 INVARIANTS VisibleExact NeverOthers Emit
